@@ -22,17 +22,21 @@ CHECK = {
         "with mean/sigma < 9.4 can yield lambda <= 0 for a reachable normal deviate; not alarmed)",
         "parent directions closer than 1e-5 rad to the z axis but not on it are outside the alphabet "
         "(rotate() snaps them to the pole: cone error up to ~1e-8, solid angle ~1e-10)",
+        "parent directions within 0.005 rad of +-z with y < 0 (recorded rotate() defect = rotation into "
+        "the frame of the mirrored parent (x,|y|,z)): the Cerenkov cone is judged about the mirrored "
+        "parent; a photon on that cone is reported under the recorded signature, a photon on neither "
+        "cone under a separate, unrecorded one; letters with z < 0 and y >= 0 keep the plain cone oracle",
         "tolerance 1e-12 (library soft precision; consumer RayleighInteractor expects "
         "|dir.pol| < 1e-14) plus a derived conditioning term of rotate() for parents near the pole",
         "no upper bound on the photon time and no distributional claims are checked (not promised)",
     ],
     "bounds": {
         "quick": {"alphabet": "alphabet_u5", "script_len_generators": 6, "script_len_offload": 3,
-                  "materials": 4, "scint_materials": 5, "directions": 18, "variants": 4,
+                  "materials": 4, "scint_materials": 5, "directions": 21, "variants": 4,
                   "beta_lattice_per_material": 7,
                   "photons_per_script": "2 (Cerenkov) / 3 (scintillation)"},
         "thorough": {"alphabet": "alphabet_u7 (positions 0-4 of the generator scripts; alphabet_u5 at position 5)", "script_len_generators": 6, "script_len_offload": 3,
-                     "materials": 5, "scint_materials": 6, "directions": 24, "variants": 4,
+                     "materials": 5, "scint_materials": 6, "directions": 27, "variants": 4,
                      "beta_lattice_per_material": 8,
                      "photons_per_script": "2 (Cerenkov) / 3 (scintillation)"},
     },
